@@ -66,8 +66,50 @@ VElem(rec) ==
     ELSE IF rec.copyeq # "T" THEN <<"drift", "element-copy">>
     ELSE <<"ok", "element">>
 
+\* ---------------------------------------------------------------- a file with comments, short lines, continuations
+VFileG(rec) ==
+    LET D == FileDataset(rec.lines) IN
+    IF rec.out = "setup-failed" THEN <<"skip", "setup-failed">>
+    ELSE IF Len(D) = 0 \/ Universe(D) = {} \/ \E j \in DOMAIN D : ~IsRanking(D[j]) THEN <<"skip", "input-outside-domain">>
+    ELSE IF rec.out # "ok" THEN <<"drift", "file-grammar-fails:" \o rec.out>>
+    ELSE IF DsOfJson(rec.read) # D THEN <<"drift", "file-grammar">>
+    ELSE IF rec.name # 1 THEN <<"drift", "file-dataset-name">>
+    ELSE <<"ok", "file-grammar">>
+
+VFolder(rec) ==
+    LET F == FolderOrder(rec.files) IN
+    IF rec.out = "setup-failed" THEN <<"skip", "setup-failed">>
+    ELSE IF rec.out # "ok" THEN <<"drift", "folder-fails:" \o rec.out>>
+    ELSE IF Len(rec.read) # Len(F) THEN <<"drift", "folder-count">>
+    ELSE IF \E j \in DOMAIN F : rec.read[j].key # F[j].key THEN <<"drift", "folder-order-or-names">>
+    ELSE IF \E j \in DOMAIN F : DsOfJson(rec.read[j].rks) # FileDataset(F[j].lines) THEN <<"drift", "folder-dataset">>
+    ELSE <<"ok", "folder">>
+
+\* ---------------------------------------------------------------- DatasetSelector
+VSelect(rec) ==
+    LET Ds == [j \in DOMAIN rec.Ds |-> DsOfJson(rec.Ds[j])] IN
+    IF rec.out = "setup-failed" THEN <<"skip", "setup-failed">>
+    ELSE IF rec.out # "ok" THEN <<"drift", "selector-fails:" \o rec.out>>
+    ELSE IF rec.got # SelectedIdx(Ds, rec.b) THEN <<"drift", "selector">>
+    ELSE IF rec.views # 1 THEN <<"drift", "selector-bounds-views">>
+    ELSE <<"ok", "selector">>
+
+\* ---------------------------------------------------------------- plain views of a dataset
+VDViews(rec) ==
+    LET D == DsOfJson(rec.D)  E == 1..rec.ne IN
+    IF rec.out = "setup-failed" THEN <<"skip", "setup-failed">>
+    ELSE IF rec.out # "ok" THEN <<"drift", "dataset-views-fail:" \o rec.out>>
+    ELSE IF \E x \in E : rec.contains[x] # Bool(x \in Universe(D)) THEN <<"drift", "contains_element">>
+    ELSE IF \E x \in E : rec.containsE[x] # Bool(x \in Universe(D)) THEN <<"drift", "contains_element-Element">>
+    ELSE IF DsOfJson(rec.iter) # D THEN <<"drift", "dataset-iteration">>
+    ELSE IF DsOfJson(rec.items) # D THEN <<"drift", "dataset-getitem">>
+    ELSE IF rec.name # 1 THEN <<"drift", "dataset-name">>
+    ELSE <<"ok", "dataset-views">>
+
 Verdict(rec) == CASE rec.kind = "topk" -> VTopK(rec) [] rec.kind = "cviews" -> VCViews(rec)
                   [] rec.kind = "pviews" -> VPViews(rec) [] rec.kind = "elem" -> VElem(rec)
+                  [] rec.kind = "fileg" -> VFileG(rec) [] rec.kind = "folder" -> VFolder(rec)
+                  [] rec.kind = "select" -> VSelect(rec) [] rec.kind = "dviews" -> VDViews(rec)
 
 Init == i = 0 /\ verdict = <<"init", "">>
 Pick == i = 0 /\ \E j \in DOMAIN Trace : i' = j /\ verdict' = <<"pending", "">>
